@@ -95,6 +95,7 @@ class Session:
         self.pool['OUT'] = np.zeros(s0, dtype=complex)
         self.pool['ACC'] = nrng.uniform(size=s0)
         self.pool['SCR'] = (nrng.normal(size=(20, 20)) + 0j)
+        self.pool['ANG'] = np.array(0.5)                                         # an angle held in a 0-d array
         r = lentil.radiometry
         self.pool['S1'] = r.Spectrum(wave=np.arange(400, 411, dtype=float), value=nrng.uniform(1, 2, size=11), waveunit='nm', valueunit=None)
         self.pool['S2'] = r.Spectrum(wave=np.arange(402, 414, 2, dtype=float), value=nrng.uniform(1, 2, size=6), waveunit='nm', valueunit=None)
@@ -157,6 +158,8 @@ class Session:
         nz = rng.choice((True, False))
         menu = [
             ('Plane', lambda: l.Plane(amplitude=p['A1'], mask=p['M1']), ['A1', 'M1'], ()),
+            ('Rotate', lambda: l.Rotate(angle=p['ANG'], unit='radians').angle, ['ANG'], ('radians',)),
+            ('Tilt_ctor', lambda: (lambda t: (t.x, t.y))(l.Tilt(x=p['ANG'], y=p['ANG'])), ['ANG'], ()),
             ('Pupil', lambda: l.Pupil(amplitude=p['A2'], opd=p['O1'].copy(), mask=p['Mi'], pixelscale=0.5, focal_length=4.0), ['A2', 'O1', 'Mi'], ()),
             ('Pupil_nomask', lambda: l.Pupil(amplitude=p['A2'], opd=p['O1'].copy(), pixelscale=0.5, focal_length=4.0), ['A2', 'O1'], (), 'P2'),
             ('Image', lambda: l.Image(amplitude=p['A1'], mask=p['M1']), ['A1', 'M1'], ()),
